@@ -131,6 +131,11 @@ def execute(chunk):
                 ref_states = None
                 for ci, c in enumerate(p['consumptions']):
                     consume(c['junk'], c['py'], c['np'], c['torch'])
+                    if c.get('other_model'):
+                        # process history outside the object: an unrelated estimator with default parameters is created
+                        # (and thrown away) before the compared one
+                        from xrfm import xRFM as _X
+                        _X(device='cpu', verbose=False)
                     m = build(p, p['seed'])
                     states = rng_states()
                     with quiet():
@@ -254,6 +259,7 @@ def gen_cases(run):
             for _ in range(2 if quick else 4):
                 cons.append({'junk': r.randint(0, 10 ** 6), 'py': r.choice([0, 1, 17, 10 ** 4]), 'np': r.choice([0, 3, 999, 10 ** 4]),
                              'torch': r.choice([1, 5, 1000, 10 ** 4])})
+            cons[-1]['other_model'] = True
             p['consumptions'] = cons
             cases.append(p)
     # (b) histories
